@@ -133,11 +133,18 @@ def main(argv):
   else:
     replay_index = load_replays(prop_id)
   if replay_index:
-    nrep = min(NPROC, max(1, len(replay_index) // 4))
-    for part in range(nrep):
-      cases = [d["case"] for j, (_, d) in enumerate(replay_index) if j % nrep == part]
-      tasks.append({"module": modname, "kind": "replay", "shard": {"name": "replay"},
-                    "replay_cases": cases, "budget_s": 10 * budget, "seed": seed})
+    # replays run under the environment their case needs (module.case_env)
+    case_env = getattr(mod, "case_env", lambda c: {})
+    groups = {}
+    for _, d in replay_index:
+      groups.setdefault(json.dumps(case_env(d["case"]), sort_keys=True), []).append(d["case"])
+    for envkey, cases in groups.items():
+      nrep = min(NPROC, max(1, len(cases) // 4))
+      for part in range(nrep):
+        tasks.append({"module": modname, "kind": "replay",
+                      "shard": {"name": "replay", "env": json.loads(envkey)},
+                      "replay_cases": [c for j, c in enumerate(cases) if j % nrep == part],
+                      "budget_s": 10 * budget, "seed": seed})
   n_replay_tasks = len(tasks)
   if not replay_file:
     for shard in mod.shards(tier):
